@@ -76,8 +76,12 @@ type gRx struct {
 func clone(n enc.Name) enc.Name { return append(enc.Name{}, n...) }
 
 func gen(g *common.Gen) {
+	// common.NewRand(seed) and common.NewRand(seed+1) are the same splitmix64 stream shifted by one
+	// draw (the state is seed*gamma+c), and the thorough tier uses consecutive seeds: re-seed from a
+	// DRAW of the stream so that batches do not repeat each other's histories.
+	root := common.NewRand(g.R.U64() ^ 0x5851F42D4C957F2D)
 	for i := 0; i < g.N; i++ {
-		genHistory(g, g.R.Fork())
+		genHistory(g, root.Fork())
 	}
 }
 
